@@ -27,13 +27,17 @@ class Sweep:
             self.samples.append(key if isinstance(key, (str, int, list)) else repr(key))
 
     def violation(self, cls, desc, replay, inp=None):
-        if len(self.violations) < 200:
+        n = sum(1 for v in self.violations if v['class'] == cls)
+        self.counts = getattr(self, 'counts', {})
+        self.counts[cls] = self.counts.get(cls, 0) + 1
+        if n < 5 and len(self.violations) < 400:
             self.violations.append({'class': cls, 'desc': desc, 'replay': replay, 'input': inp})
 
     def emit(self):
         print('@@BOUNDED@@' + json.dumps({
             'name': self.name, 'bound': self.bound, 'evaluations': self.evaluations,
-            'distinct_nontrivial': len(self.nontrivial), 'violations': self.violations, 'samples': self.samples}))
+            'distinct_nontrivial': len(self.nontrivial), 'violations': self.violations, 'samples': self.samples,
+            'violation_counts': getattr(self, 'counts', {})}))
 
 
 REPLAY_HEAD = '''#!/venv/bin/python
